@@ -94,7 +94,8 @@ func c19Native(c *Ctx) {
 		return
 	}
 	dir := c.Scratch()
-	marker := []byte("PRE-EXISTING CONTENT\n")
+	// longer than any generated file, so that a missing truncation leaves a stale tail
+	marker := bytes.Repeat([]byte("PRE-EXISTING CONTENT 0123456789 abcdefghijklmnopqrstuvwxyz\n"), 6000)
 	for li, lang := range []string{"go", "typescript"} {
 		for i, text := range c19BadTexts {
 			in := filepath.Join(dir, fmt.Sprintf("bad%d.y", i))
